@@ -271,6 +271,23 @@ def check_case(case):
                    f"the parameter types {[t for _, t in act.params]} position by position", list(args), str(tac2),
                    tags=case["tags"] + ["no-problem-objects"])
             break
+        # a call on domain constants only, with the (empty) object table of a problem that declares no objects: the
+        # constants print with their own types, as with any other object table
+        if args and all(a in S.constants for a in args):
+            tac3 = guard(lambda: sexp.read(operator(pg.D, "a", args, {}).typed_action_call))
+            ok = not isinstance(tac3, Raised) and tac3[:1] == ["a"]
+            if ok:
+                try:
+                    pairs = parse_typed_list(tac3[1:])
+                    ok = [n for n, _ in pairs] == list(args) and [t for _, t in pairs] == [S.constants[a] for a in args]
+                except RefError:
+                    ok = False
+            if not ok:
+                r.outcome("typed-call-differs")
+                r.fail("typed-action-call", f"(a {' '.join(args)}) with an empty problem object table: typed_action_call={tac3}, "
+                       f"expected the constants' own types {[S.constants[a] for a in args]}", list(args), str(tac3),
+                       tags=case["tags"] + ["empty-object-table"])
+                break
         # what was grounded stays what it is: after the operator has been applied (to a state without any fact, then to
         # one with the mentioned fluents defined) the same literals and expressions are reported
         def after_use():
